@@ -362,7 +362,7 @@ func TestVerif_C01_Session(t *testing.T) {
 func TestVerif_C01_LongSession(t *testing.T) {
 	m := mon.New("C01", "longsession")
 	defer m.Finish(t)
-	m.Rule("longsession: single connections carrying 70 000 (quick, 8 sessions) / 300 000 (thorough, 16 sessions) small messages in one direction on 1-5 chunk streams, " +
+	m.Rule("longsession: single connections carrying 70 000 (quick, 8 sessions) / 300 000 (thorough, 16 sessions) small messages in one direction on 1-5 chunk streams (every fourth session: on all 62 chunk streams 2..63), " +
 		"timestamps advancing through 2^24 and 2^31-1, a Set Chunk Size every few thousand messages, around message 2^8 and 2^16 a chunk size far from the default (4096 / 17) and payloads above 128 bytes, read back in batches of 1..500; thorough adds one session " +
 		"moving more than 2^32 payload bytes (16 MiB messages at chunk size 2^24); distinct = message type x length class x chunk-size class per 10 000 messages")
 	nsess := m.N(8, 16)
@@ -383,9 +383,18 @@ func TestVerif_C01_LongSession(t *testing.T) {
 			if i%2 == 0 {
 				ncs = 1 // every second session on a single chunk stream: its per-stream state sees all 70 000 messages
 			}
+			if i%4 == 1 {
+				ncs = 62 // every fourth session spreads its messages over ALL chunk streams the writer can address (2..63)
+				m.Count("sessions_using_all_62_chunk_streams", 1)
+			}
 			cids := make([]uint32, ncs)
 			for k := range cids {
 				cids[k] = uint32(r.Range(2, 63))
+			}
+			if ncs == 62 {
+				for k, c := range r.Perm(62) {
+					cids[k] = uint32(2 + c)
+				}
 			}
 			ts := make([]uint64, ncs)
 			chunk := uint32(128)
